@@ -102,11 +102,21 @@ fn real_main() {
         eprintln!("MACHINERY: reference hash self-test failed: {e}");
         std::process::exit(2);
     }
-    let rep = match props::dispatch(&prop, &ctx) {
-        Some(r) => r,
-        None => {
+    // a panic in a sequential section of a property module (outside the per-case capture of par_for) is a
+    // panic of the code under test, or a broken expectation about it (an unwrap of a result that must be Ok on
+    // the unchanged tree): it is reported as a violation with the place it was raised, not as an engine crash
+    let rep = match std::panic::catch_unwind(std::panic::AssertUnwindSafe(|| props::dispatch(&prop, &ctx))) {
+        Ok(Some(r)) => r,
+        Ok(None) => {
             eprintln!("unknown property {prop}");
             std::process::exit(2);
+        }
+        Err(e) => {
+            let mut r = Report::new(&prop, "exploration");
+            let at = last_panic_location();
+            r.acc.violation(format!("PANIC in a sequential section, raised at {at}"), format!("{} — the enumeration was aborted at this point; everything explored before it is lost", panic_msg(e)));
+            r.rule = "aborted by a panic".into();
+            r
         }
     };
     let j = rep.to_json(&ctx);
